@@ -9,7 +9,8 @@ case = {buffer, window, preset (bool: set the controller's buffer size directly 
 op   = ["read", p, address, length] | ["write", p, address, data] | ["conn_read", p, address, length] |
        ["conn_write", p, address, data] | ["read_struct", p, field] | ["write_struct", p, field, value] |
        ["read_vcpu", p, field] | ["write_vcpu", p, field, value] | ["fill", p, address, data, size] |
-       ["read_link", address, length, link] | ["write_link", address, link, data]
+       ["read_link", address, length, link] | ["write_link", address, link, data] |
+       ["boot"] | ["assign_structs"]  (the controller's struct tables are replaced by those of case["struct_text"])
        data = hex string | ["pat", seed, n]
 result = [per op: {outcome, trace, nsver, diff, nsend}]
    outcome = ["ok", value] | ["exc", class name, message] | ["stuck"]; bytes are given as hex strings
@@ -267,7 +268,7 @@ def run_case(c):
             results_pre = dict(found=found, conns=sorted(list(k) for k in mc.connections if k is not None))
         else:
             results_pre = None
-        if c.get("struct_text"):
+        if c.get("struct_text") and not any(o[0] in ("boot", "assign_structs") for o in c["ops"]):
             # the machine is (re)booted with a struct file whose fields have moved: the controller must use it
             try:
                 boot_with(mc, c["struct_text"])
@@ -289,7 +290,13 @@ def run_case(c):
             llo = len(net.log)
             rlo = len(machine.refused)
             try:
-                if c.get("enter"):
+                if op[0] == "boot":                   # boot(sark_struct=<the case's struct file>) at this point
+                    boot_with(mc, c["struct_text"])
+                    v = None
+                elif op[0] == "assign_structs":       # mc.structs = <tables of the case's struct file>
+                    mc.structs = struct_file.read_struct_file(c["struct_text"].encode("latin-1"))
+                    v = None
+                elif c.get("enter"):
                     import contextlib
                     with contextlib.ExitStack() as st:
                         for j in c["enter"][i]:
